@@ -26,8 +26,9 @@ namespace bxdecay0 {
   {
     static bool devel = false;
     // devel = true;
-    static std::map<std::string, bool> _t;
-    if (_t.empty()) {
+    // Built once, inside the (thread-safe) initialization of the function-local static:
+    static const std::map<std::string, bool> _t = []() {
+      std::map<std::string, bool> _t;
       if (devel) {
         std::cerr << "[devel] bxdecay0::traces: "
                   << "Populating trace map..." << std::endl;
@@ -92,7 +93,8 @@ namespace bxdecay0 {
                     << "Topic '" << p.first << "' -> trace = " << std::boolalpha << p.second << std::endl;
         }
       }
-    }
+      return _t;
+    }();
     return _t;
   }
 
